@@ -26,22 +26,22 @@ import (
 
 // Config is the geometry and flavour of one assembled store.
 type Config struct {
-	Sector       int   // sector size in bytes
-	BlockSectors int64 // sectors per block
+	Sector               int   // sector size in bytes
+	BlockSectors         int64 // sectors per block
 	Old, Cur, New, Spare int
-	Mutable      bool // AC-style growth policy (one "new" block)
-	Records      int  // size of the index table (made prime like production if > 3)
-	GetAttempts  uint32
-	PutAttempts  int
-	Hierarchical bool
-	KeyFormat    digest.KeyFormat // for the flat store
-	InMemoryBlocks bool // in-memory allocator (implies sector size 1, volatile)
-	InMemoryIndex  bool
-	Persistent   bool
-	Factory      string // "cas", "ac", "raw"
-	MinEpoch     time.Duration
-	Retry        time.Duration
-	Label        string // storage_type label for Prometheus
+	Mutable              bool // AC-style growth policy (one "new" block)
+	Records              int  // size of the index table (made prime like production if > 3)
+	GetAttempts          uint32
+	PutAttempts          int
+	Hierarchical         bool
+	KeyFormat            digest.KeyFormat // for the flat store
+	InMemoryBlocks       bool             // in-memory allocator (implies sector size 1, volatile)
+	InMemoryIndex        bool
+	Persistent           bool
+	Factory              string // "cas", "ac", "raw"
+	MinEpoch             time.Duration
+	Retry                time.Duration
+	Label                string // storage_type label for Prometheus
 }
 
 func (c Config) String() string {
@@ -427,13 +427,13 @@ func (k *KLMWrap) Lookup(key local.Key) (AbsLocation, bool) {
 // FactoryWrap wraps the read-buffer factory used by the block-device-backed
 // allocator: it counts reader opens/closes and monitors integrity verdicts.
 type FactoryWrap struct {
-	Inner blobstore.ReadBufferFactory
-	Raw   bool
-	log   *EventLog
-	Opens, Closes   atomic.Int64
-	IntegrityFalse  atomic.Int64
-	IntegrityTrue   atomic.Int64
-	DoubleCloses    atomic.Int64
+	Inner          blobstore.ReadBufferFactory
+	Raw            bool
+	log            *EventLog
+	Opens, Closes  atomic.Int64
+	IntegrityFalse atomic.Int64
+	IntegrityTrue  atomic.Int64
+	DoubleCloses   atomic.Int64
 }
 
 type readerWrap struct {
@@ -855,6 +855,11 @@ func (s *Store) ReleasePending() bool {
 type Task struct {
 	Done chan struct{}
 	s    *Store
+	// Stuck is set when RunUntilParked gave up: the task neither finished nor
+	// parked although the virtual clock was advanced through thousands of
+	// (retry) timers - e.g. a transient failure that is retried forever
+	// without ever succeeding.
+	Stuck bool
 }
 
 // Finished reports whether the task has returned.
@@ -864,6 +869,7 @@ func (t *Task) Finished() bool { return chanReady(t.Done) }
 // until the task has finished or some goroutine is parked at one of the named
 // gate points. It returns the gate point reached, or "" when finished.
 func (t *Task) RunUntilParked(points ...string) string {
+	advances := 0
 	for spin := 0; ; spin++ {
 		if t.Finished() {
 			return ""
@@ -875,6 +881,11 @@ func (t *Task) RunUntilParked(points ...string) string {
 		}
 		if d, ok := t.s.M.Clock.NextFire(); ok {
 			t.s.M.Clock.Advance(d)
+			advances++
+			if advances > 3000 {
+				t.Stuck = true
+				return ""
+			}
 			continue
 		}
 		if spin%64 == 63 {
